@@ -360,7 +360,7 @@ def _judge_seq(va, vb, op, out, level, mosw, add, prop_order, prop_cons):
     ok_w = all(got[k] == want[k] for k in set(got) | set(want) if k != cat and k != DUP) \
         and want[cat] <= got[cat] <= want[cat] + an.optional
     if an.dup_or_apply:
-        ok_w = ok_w and got[DUP] <= want[DUP] + len(an.carried)
+        ok_w = ok_w and got[DUP] <= want[DUP] + len(carried_nodes_)
     else:
         ok_w = ok_w and got[DUP] == want[DUP]
     if not ok_w:
